@@ -197,3 +197,120 @@ pub fn run_with(p: &Prob, c: &Cfg, answer: Option<AnswerFn<'_>>, mass: Option<&d
     };
     Run { out, st }
 }
+
+// ---------------------------------------------------------------------------------------------
+// low-level solver run with a recording / scripted SolOut
+
+use crate::env::{Ans, ProbeSolOut, StepRec};
+use ivp::methods::{IntegrationResult, BDF, DOP853, DOPRI5, RADAU, RK23, RK4};
+
+pub struct LowRun {
+    pub res: Result<Result<IntegrationResult, String>, String>,
+    pub recs: Vec<StepRec>,
+    pub interior: Vec<Vec<(f64, Vec<f64>)>>,
+    pub st: ProbeState,
+}
+
+impl LowRun {
+    pub fn ok(&self) -> Option<&IntegrationResult> {
+        match &self.res {
+            Ok(Ok(r)) => Some(r),
+            _ => None,
+        }
+    }
+    pub fn outcome_name(&self) -> String {
+        match &self.res {
+            Ok(Ok(r)) => format!("{:?}", r.status),
+            Ok(Err(e)) => format!("Err({})", e),
+            Err(p) => format!("PANIC({})", p),
+        }
+    }
+}
+
+/// Runs the low-level solver of `c.method` with its builder defaults except for the options set
+/// in `c` (first_step, max_step, max_steps, jac_storage; mass storage only when `set_mass_storage`).
+pub fn run_lowlevel(
+    p: &Prob,
+    c: &Cfg,
+    script: &[(usize, Ans)],
+    thetas: &[f64],
+    answer: Option<AnswerFn<'_>>,
+    set_mass_storage: bool,
+) -> LowRun {
+    let f = p.rhs();
+    let jacf = |t: f64, y: &[f64], j: &mut Matrix| p.write_jac(t, y, j);
+    let mut probe = Probe::new(&f);
+    if c.user_jac {
+        probe.jacf = Some(&jacf);
+    }
+    probe.events = vec![];
+    probe.answer = answer;
+    probe.budget = c.budget;
+    probe.keep_log = c.keep_log;
+    let mut so = ProbeSolOut::new(&probe);
+    so.script = script.to_vec();
+    so.thetas = thetas.to_vec();
+    let (rtol, atol) = (c.rtol.to(), c.atol.to());
+    let res = guarded(|| match c.method {
+        Method::RK4 => {
+            let h = c.first_step.unwrap_or((c.xend - c.x0) / 100.0);
+            let s = match c.max_steps {
+                Some(m) => RK4::builder().max_steps(m).build(),
+                None => RK4::builder().build(),
+            };
+            s.solve(&probe, c.x0, &c.y0, c.xend, h, Some(&mut so))
+        }
+        Method::RK23 => {
+            let b = RK23::builder().maybe_max_step(c.max_step).maybe_first_step(c.first_step);
+            let s = match c.max_steps {
+                Some(m) => b.max_steps(m).build(),
+                None => b.build(),
+            };
+            s.solve(&probe, c.x0, &c.y0, c.xend, rtol, atol, Some(&mut so))
+        }
+        Method::DOPRI5 => {
+            let b = DOPRI5::builder().maybe_max_step(c.max_step).maybe_first_step(c.first_step);
+            let s = match c.max_steps {
+                Some(m) => b.max_steps(m).build(),
+                None => b.build(),
+            };
+            s.solve(&probe, c.x0, &c.y0, c.xend, rtol, atol, Some(&mut so))
+        }
+        Method::DOP853 => {
+            let b = DOP853::builder().maybe_max_step(c.max_step).maybe_first_step(c.first_step);
+            let s = match c.max_steps {
+                Some(m) => b.max_steps(m).build(),
+                None => b.build(),
+            };
+            s.solve(&probe, c.x0, &c.y0, c.xend, rtol, atol, Some(&mut so))
+        }
+        Method::RADAU => {
+            let b = RADAU::builder().maybe_max_step(c.max_step).maybe_first_step(c.first_step).jac_storage(c.jac_storage.clone());
+            let s = match (c.max_steps, set_mass_storage) {
+                (Some(m), true) => b.max_steps(m).mass_storage(c.mass_storage.clone()).build(),
+                (Some(m), false) => b.max_steps(m).build(),
+                (None, true) => b.mass_storage(c.mass_storage.clone()).build(),
+                (None, false) => b.build(),
+            };
+            s.solve(&probe, c.x0, &c.y0, c.xend, rtol, atol, Some(&mut so))
+        }
+        Method::BDF => {
+            let b = BDF::builder().maybe_max_step(c.max_step).maybe_first_step(c.first_step).jac_storage(c.jac_storage.clone());
+            let s = match c.max_steps {
+                Some(m) => b.max_steps(m).build(),
+                None => b.build(),
+            };
+            s.solve(&probe, c.x0, &c.y0, c.xend, rtol, atol, Some(&mut so))
+        }
+    });
+    let recs = std::mem::take(&mut so.recs);
+    let interior = std::mem::take(&mut so.interior);
+    drop(so);
+    let st = probe.state();
+    let res = match res {
+        Ok(Ok(r)) => Ok(Ok(r)),
+        Ok(Err(e)) => Ok(Err(format!("{:?}", e))),
+        Err(p) => Err(p),
+    };
+    LowRun { res, recs, interior, st }
+}
